@@ -224,6 +224,16 @@ var properties = map[string]*propSpec{
 			{Check: "TestC18_Spellings", Class: "nontrivial", Min: 0.5},
 		},
 	},
+	"C19": {
+		Title: "Parse depends only on the path and the Config given to that call",
+		Checks: []checkSpec{
+			{Test: "TestC19_History", Quick: 3000, Thorough: 40000, Rapid: true},
+		},
+		Assumptions: assume("the reference outcome of each (path, config) descriptor is its outcome as the first library call of a fresh process (one exec of the test binary per descriptor)"),
+		Floors: []floor{
+			{Check: "TestC19_History", Class: "nontrivial", Min: 0.4},
+		},
+	},
 	"C20": {
 		Title: "Values that are not decoded JSON are treated as opaque leaves, never crash",
 		Checks: []checkSpec{
